@@ -105,7 +105,7 @@ def run(ctx):
     ctx.tlc_check('MC_LasWriteTable', 'LasWriteTable', consts=consts, cfg_consts={'MaxChannels': mc, 'MaxArrays': '1'},
                   env={'OUT_TABLE': ft}, workers=1, coverage=False)
     rows = json.load(open(ft))
-    nrows = 0
+    nrows = nbig = 0
     reps = ctx.pick(1, 8)            # thorough: every row of the table under several draws of dtype / shape / reduction / width / format
     for row in [r_ for r_ in rows for _ in range(reps)]:
         names, req, expected = row['array'], row['req'], row['expected']
@@ -119,6 +119,10 @@ def run(ctx):
         nfr = rng.choice([1, 2, 5])
         method = rng.choice(['first', 'mean', 'median', 'min', 'max'])
         width = rng.choice([2, 8, 16, 24])
+        if len(expected) >= 2 and nbig < ctx.pick(2, 6):
+            # long logs: a data section of several hundred kilobytes (past any block size a writer may buffer by)
+            nbig += 1
+            nfr, width = (4000 if nbig % 3 else 20000), 24
         fmt = rng.choice(['.0f', '.1f', '.3f', '.6f', '.10f'])
         dec = int(fmt[1:-1])
         fa = LogPass.FrameArray('verif', 'C10')
